@@ -102,10 +102,10 @@ class RandomGen:
             return [o for o in m.objs.values() if o.kind in 'MNW']
 
         def nest_targets():
-            return {e.p['nobj'] for e in m.exps.values() if not e.is_mon and any(e.p.get('se%d' % i) == 2 for i in range(3))}
+            return {e.p['nobj'] for e in m.exps.values() if not e.is_mon and any(e.p.get('se%d' % i) in (2, 3) for i in range(3))}
 
         def would_cut_rmseq(s):
-            return any(s in e.seqs for e in m.exps.values())
+            return False   # behaviour after a sequence object died is modelled (passed stays passed, pending becomes unconstrained)
 
         def would_cut_rmobj(o):
             ob = m.objs[o]
@@ -154,12 +154,21 @@ class RandomGen:
                 p['w%d' % i] = 15 if rng.random() < pf['p_with_accept'] else rng.randrange(0, 16)
             for i in range(s['ns']):
                 r = rng.random()
+                if r > 1 - pf['p_se_nested'] and s['fn'] not in ('gs',) and 'nobj' not in p:
+                    # conditional recursion (nested v(arg-1) while arg>0): may target the expectation's own object,
+                    # for an expectation on v that is genuine recursion into the same mock function
+                    tg = [o for o in mock_objs() if o.kind != 'N']
+                    if tg:
+                        own = [o for o in tg if o.id == ob.id]
+                        p['se%d' % i] = 3
+                        p['nobj'] = (own[0] if own and rng.random() < 0.6 else rng.choice(tg)).id
+                        continue
                 if r < pf['p_se_throw']:
                     p['se%d' % i] = 1
                 elif r < pf['p_se_throw'] + pf['p_se_nested']:
                     tg = [o for o in mock_objs() if o.id != ob.id and o.kind != 'N']
                     # the nested target function is always v: an expectation on v never nests itself (no call cycles)
-                    if tg and s['fn'] != 'v':
+                    if tg and s['fn'] != 'v' and 'nobj' not in p:
                         p['se%d' % i] = 2
                         p['nobj'] = rng.choice(tg).id
                         p['narg'] = rng.choice(ARGS)
@@ -219,9 +228,10 @@ class RandomGen:
                       if m.params_match(e, (x, y)) and m.withs_match(e, (x, y))[0]]
                 if ok:
                     a, b = rng.choice(ok)
+            kind = 'callx' if rng.random() < 0.08 else 'call'
             if fn == 'h':
-                return ('call', ob.id, fn, a, b)
-            return ('call', ob.id, fn, a)
+                return (kind, ob.id, fn, a, b)
+            return (kind, ob.id, fn, a)
 
         def gen_one(kind):
             if kind == 'obj':
